@@ -14,7 +14,8 @@ HARNESSES = [
     dict(name="local", pkg="./plugins/dhcp4/local/", test="TestVerifC19",
          files=[("plugins/dhcp4/local/zz_verif_c19_local_test.go", "harness/C19/zz_verif_c19_local_test.go")]),
 ]
-VARIANTS = ["repaired", "defective"]
+# every recorded defect is fixed in /repo; a regression to an old behaviour is a plain VIOLATION (no defect variant is consulted)
+VARIANTS = ["repaired"]
 RULE = ("Structured generators, bytes compared exactly with the Coq model, plus property-level observables "
         "(independent RFC 1071 verification h/u, length consistency l, zero UDP checksum z, gopacket option decode gp, "
         "getter read-back get, DHCPv6 re-parse). Frames: ip4/udp4/ip6/wrap with payload sizes {0,1,2,odd,even,~300,1472, "
@@ -488,6 +489,24 @@ def gen_msg6(rng, nested_ok=True):
     return b
 
 
+def gen_pseq6(rng):
+    """the DHCPv6 proxy's two-message sequence: ADVERTISE/REPLY inside a relay-reply, then the client's REQUEST"""
+    ln = rng.choice([14, 14, 14, 10, 18])
+    sd = rb(rng, ln)                                  # the real server's DUID
+    pd = rb(rng, rng.choice([14, 14, ln, 10]))        # the proxy's own DUID (same length: in-place rewrite path)
+    cid = o6(1, rb(rng, 14))
+    ia = o6(3, rb(rng, 4) + struct.pack(">II", u32(rng), u32(rng)) + o6(5, ip6b(rng) + struct.pack(">II", u32(rng), u32(rng))))
+    opts = [cid, ia] + ([o6(2, sd)] if rng.random() < 0.93 else []) + ([o6(23, ip6b(rng))] if rng.random() < 0.3 else [])
+    rng.shuffle(opts)
+    adv = bytes([rng.choice([2, 7])]) + rb(rng, 3) + b"".join(opts)
+    raw = bytes([13, 0]) + ip6b(rng) + ip6b(rng) + (o6(18, b"if0") if rng.random() < 0.5 else b"") + o6(9, adv)
+    # the REQUEST carries the Server-ID the client saw: the proxy's
+    ropts = [cid, ia] + ([o6(2, pd)] if rng.random() < 0.9 else [])
+    rng.shuffle(ropts)
+    req = bytes([rng.choice([3, 5, 6])]) + rb(rng, 3) + b"".join(ropts)
+    return "pseq6 %s %d %d %s %s" % (hx(pd), u32(rng), u32(rng), hx(raw), hx(req))
+
+
 def gen_v6(rng, n):
     cases = []
     for _ in range(n):
@@ -541,9 +560,11 @@ def gen_v6(rng, n):
         elif r < 0.87:
             pref = rng.choice(U32S + [rng.randrange(M32)])
             cases.append("lt6 %d %d %s" % (pref, u32(rng), hx(gen_msg6(rng))))
-        else:
+        elif r < 0.95:
             msg = gen_msg6(rng)
             cases.append("duid6 %s %s" % (hx(rb(rng, rng.choice([14, 10, 0, 1, 18, 14, 14]))), hx(msg)))
+        else:
+            cases.append(gen_pseq6(rng))
     return cases
 
 
@@ -762,6 +783,17 @@ def classify(case, impl, model):
         return "P", "UDP/IPv4 checksum field is 0x0000 (means: no checksum) where RFC 768 requires 0xFFFF"
     if impl.split(" ")[0] in ("panic", "hang") and not model.startswith(impl.split(" ")[0]):
         return "P", "builder %s where the model returns a message" % impl.split(" ")[0]
+    if impl.split(" ")[0] == "ALIAS" or "ALIAS" in impl.split():
+        return "P", "a getter / builder result shares memory with its source packet (value contract: must be a copy)"
+    for f, what in (("gal", "getter result aliases the packet it was read from"), ("nal", "rewritten packet aliases the new value"),
+                    ("al", "rewriter result aliasing differs from the contract (returns its argument / a fresh slice)"),
+                    ("im", "rewriter modified (or failed to modify) its input buffer contrary to the contract"),
+                    ("rawmod", "unwrapped inner message aliases the relay-reply: rewriting it changed the received packet")):
+        if f in ki and ki[f] != km.get(f):
+            return "P", what + " (impl %s=%s, contract %s)" % (f, ki[f], km.get(f))
+    if case.startswith("pseq6") and " ; " in impl and impl.split(" ; ")[1:3] != model.split(" ; ")[1:3]:
+        return "P", "proxy sequence: learnt server DUID / Server-ID of the forwarded REQUEST differ: impl %s model %s" % (
+            impl.split(" ; ")[1][:60], model.split(" ; ")[1][:60])
     if "gp" in ki and ki["gp"] != km.get("gp"):
         return "P", "independent decoder (gopacket) sees options %s, the proved model %s" % (ki["gp"][:80], str(km.get("gp"))[:80])
     if "get" in ki and ki["get"] != km.get("get"):
